@@ -33,7 +33,7 @@ def plan(tier, seed):
     for rep in range(n):
         s = seed * 100 + rep
         runs.append(("h_world", ["gen", str(s), "400", "60"], False))
-        for f in ("any", "many", "lazy", "tracked", "ledger", "rjoin"):
+        for f in ("any", "many", "lazy", "tracked", "ledger", "rjoin", "far", "churn"):
             runs.append(("h_world", ["sgen", str(s), "300" if tier == "quick" else "1500", "45", f], f in ("ledger", "any")))
         for k in (3, 8):   # hash-map storages, plain and tracked
             runs.append(("h_world", ["sexh", str(k), "3"], True))
